@@ -143,7 +143,7 @@ theorem dictWalk_sound (X : Codec) (Q : Val → Prop) (rd : Frag → Rd.R) (w : 
     have hget : Env.get [("label", lv)] "label" = lv := by simp [Env.get, List.lookup]
     rw [hget] at hn
     simp only [flattenF, get_label, get_node, id] at hq ⊢
-    simp only [Rd.dictWalk, Cell.bits, Cell.refs, hl]
+    simp only [Rd.dictWalk, Cell.exotic, Bool.false_eq_true, if_false, Cell.bits, Cell.refs, hl]
     unfold hmNode at hn
     by_cases hle : labelLen lv ≤ n
     · simp only [hle, if_true] at hn
